@@ -202,6 +202,13 @@ impl PartitionStorage for FilePartitionStorage {
             }
 
             partition.current_offset = last_segment.current_offset;
+            // An empty trailing segment that does not start at 0 (created after retention removed every
+            // other segment, or right after a roll-over) holds no message yet: the last assigned offset
+            // is the one before its start, and the next message must continue from there.
+            if last_segment.size_bytes == 0 && last_segment.start_offset > 0 {
+                partition.current_offset = last_segment.start_offset - 1;
+                partition.should_increment_offset = true;
+            }
         }
 
         partition
